@@ -570,6 +570,10 @@ def actuate_door(
 
     position = state.agent.front()
 
+    # NOTE: there is no door beyond the grid boundary
+    if not state.grid.area.contains(position):
+        return 0.0
+
     door = state.grid[position]
     if not isinstance(door, Door):
         return 0.0
